@@ -206,6 +206,7 @@ func (t *Collection) SetItem(item *Item) (err error) {
 	defer t.freeNodeLoc(nloc)
 	r, err := t.store.union(t, root, nloc, &rnl.reclaimMark)
 	if err != nil {
+		t.reclaimMarkClear(root, &rnl.reclaimMark)
 		return err
 	}
 	verifYield(2)
@@ -251,16 +252,19 @@ func (t *Collection) Delete(key []byte) (wasDeleted bool, err error) {
 	t.store.ItemDecRef(t, i)
 	left, middle, right, err := t.store.split(t, root, key, &rnl.reclaimMark)
 	if err != nil {
+		t.reclaimMarkClear(root, &rnl.reclaimMark)
 		return false, err
 	}
 	defer t.freeNodeLoc(left)
 	defer t.freeNodeLoc(right)
 	defer t.freeNodeLoc(middle)
 	if middle.isEmpty() {
+		t.reclaimMarkClear(root, &rnl.reclaimMark)
 		return false, fmt.Errorf("concurrent delete, key: %v", key)
 	}
 	r, err := t.store.join(t, left, right, &rnl.reclaimMark)
 	if err != nil {
+		t.reclaimMarkClear(root, &rnl.reclaimMark)
 		return false, err
 	}
 	verifYield(2)
